@@ -237,7 +237,7 @@ func ruleUpdateInnerPairing(w *World, r *RuleResult) {
 					}
 					return u.Common().Args[0] == owner && u.Common().Args[1] == view
 				}
-				ok, ret := mustPassFrom(call, ev, func(rt *ssa.Return) bool {
+				ok, ret := mustPassFromUnlessFailed(call, ev, func(rt *ssa.Return) bool {
 					// failure returns (nil / false / error) need no write-back
 					for _, v := range rt.Results {
 						if isNilConst(v) && isBigIntPtr(v.Type()) {
@@ -397,12 +397,56 @@ func ruleNoNegativeZero(w *World, r *RuleResult) {
 				}
 				guarded := false
 				for _, gd := range guardsAt(b) {
-					s := w.exprOf(f, gd.Cond).String()
-					if !gd.Val && strings.Contains(s, "_inline") && strings.Contains(s, "==") {
+					cond, val := gd.Cond, gd.Val
+					for {
+						u, isU := cond.(*ssa.UnOp)
+						if !isU || u.Op != token.NOT {
+							break
+						}
+						cond, val = u.X, !val
+					}
+					s := w.exprOf(f, cond).String()
+					if !val && strings.Contains(s, "_inline") && strings.Contains(s, "==") {
 						guarded = true
 					}
-					if gd.Val && strings.Contains(s, "_inline") && strings.Contains(s, "!=") {
+					if val && strings.Contains(s, "_inline") && strings.Contains(s, "!=") {
 						guarded = true
+					}
+					// a predicate helper on a BigInt whose every return is the all-zero comparison of the inline words
+					if c, isC := cond.(*ssa.Call); isC && !val {
+						if h := callee(c); h != nil && w.inPkg(h) && w.isInlineZeroPredicate(h) {
+							guarded = true
+						}
+					}
+				}
+				// a helper that only carries out the decision of a tabled function: unexported, the store is under
+				// its own bool parameter, and every caller is a tabled function handing on its own parameter
+				if !guarded && f.Object() != nil && !f.Object().Exported() {
+					for _, gd := range guardsAt(b) {
+						prm, isP := gd.Cond.(*ssa.Parameter)
+						if !isP || !gd.Val {
+							continue
+						}
+						idx := -1
+						for i, q := range f.Params {
+							if q == prm {
+								idx = i
+							}
+						}
+						callers := w.callersOf(f)
+						all := idx >= 0 && len(callers) > 0
+						for _, c := range callers {
+							if w.shortName(c.Parent()) != "(*BigInt).updateInnerFromUint64" || idx >= len(c.Common().Args) {
+								all = false
+								break
+							}
+							if _, isParam := c.Common().Args[idx].(*ssa.Parameter); !isParam {
+								all = false
+							}
+						}
+						if all {
+							guarded = true
+						}
 					}
 				}
 				if guarded {
@@ -710,4 +754,100 @@ func (w *World) wrapperMethod(f *ssa.Function) string {
 		return n
 	}
 	return f.Name()
+}
+
+// isInlineZeroPredicate: h is a side-effect-free bool method whose every return is the comparison of the
+// receiver's whole inline array with the zero array.
+func (w *World) isInlineZeroPredicate(h *ssa.Function) bool {
+	res := h.Signature.Results()
+	if res.Len() != 1 || len(h.Params) != 1 || !typeIs(h.Params[0].Type(), apdPath, "BigInt") {
+		return false
+	}
+	if b, ok := res.At(0).Type().Underlying().(*types.Basic); !ok || b.Kind() != types.Bool {
+		return false
+	}
+	n := 0
+	for _, b := range h.Blocks {
+		for _, in := range b.Instrs {
+			switch x := in.(type) {
+			case *ssa.Store, ssa.CallInstruction:
+				return false
+			case *ssa.Return:
+				s := w.exprOf(h, x.Results[0]).String()
+				if !strings.Contains(s, "_inline") || !strings.Contains(s, "==") || strings.Contains(s, "[") && strings.Contains(s, "]") && strings.Contains(s, "_inline[") {
+					return false
+				}
+				n++
+			}
+		}
+	}
+	return n > 0
+}
+
+// mustPassFromUnlessFailed is mustPassFrom with one more way out: a path that leaves a test of the mutating
+// call's own boolean result (math/big's ok) on its false side, and ends in a return that hands that very
+// boolean on, reports the failure to the caller and has nothing to write back.
+func mustPassFromUnlessFailed(call *ssa.Call, ev func(ssa.Instruction) bool, exempt func(*ssa.Return) bool) (bool, *ssa.Return) {
+	isOK := func(v ssa.Value) bool {
+		ex, ok := v.(*ssa.Extract)
+		if !ok || ex.Tuple != ssa.Value(call) {
+			return false
+		}
+		b, isB := ex.Type().Underlying().(*types.Basic)
+		return isB && b.Kind() == types.Bool
+	}
+	type st struct {
+		b      *ssa.BasicBlock
+		failed bool
+	}
+	seen := map[st]bool{}
+	var walk func(b *ssa.BasicBlock, start int, failed bool) (bool, *ssa.Return)
+	walk = func(b *ssa.BasicBlock, start int, failed bool) (bool, *ssa.Return) {
+		for i := start; i < len(b.Instrs); i++ {
+			in := b.Instrs[i]
+			if ev(in) {
+				return true, nil
+			}
+			if r, ok := in.(*ssa.Return); ok {
+				if exempt != nil && exempt(r) {
+					return true, nil
+				}
+				if failed {
+					for _, v := range r.Results {
+						if isOK(v) {
+							return true, nil
+						}
+					}
+				}
+				return false, r
+			}
+		}
+		if start == 0 {
+			if seen[st{b, failed}] {
+				return true, nil
+			}
+			seen[st{b, failed}] = true
+		}
+		for i, s := range b.Succs {
+			f2 := failed
+			if iff, ok := b.Instrs[len(b.Instrs)-1].(*ssa.If); ok {
+				cond, neg := iff.Cond, false
+				for {
+					u, isU := cond.(*ssa.UnOp)
+					if !isU || u.Op != token.NOT {
+						break
+					}
+					cond, neg = u.X, !neg
+				}
+				if isOK(cond) && (i == 1) != neg {
+					f2 = true
+				}
+			}
+			if ok, r := walk(s, 0, f2); !ok {
+				return false, r
+			}
+		}
+		return true, nil
+	}
+	return walk(call.Block(), instrIndex(call)+1, false)
 }
